@@ -276,6 +276,22 @@ def eval_case(args):
                 except _IR:
                     pass
             return it.call(it.getattr(e, "at"), [p], {})
+        if api == "at-after-symbolic":
+            # the expression was differentiated symbolically / simplified before (its nodes are embedded by
+            # reference in what those operations build); evaluating it afterwards must be unaffected
+            from .interp import InterpRaise as _IR
+            share = {}
+            e = build(it, tree, share)
+            names_ = list(val)
+            for op in (lambda: it.call(it.getattr(it.call(cref(model, "Partial"), [e, names_[0]], {}), "as_expression"), [], {}),
+                       lambda: it.call(cref(model, "Differential"), [e], {"compute_early": True}),
+                       lambda: it.call(it.getattr(e, "_normalize"), [], {}),
+                       lambda: it.call(it.getattr(it.call(cref(model, "Partial"), [e, names_[-1]], {}), "as_expression"), [], {})):
+                try:
+                    op()
+                except _IR:
+                    pass
+            return it.call(it.getattr(e, "at"), [p], {})
         if api == "number-after-reuse":
             # every node of the expression (the variable object included) first becomes an operand of
             # other, larger expressions that mention another variable; then the expression is used alone
